@@ -258,6 +258,31 @@ impl Engine for C03 {
                 Ok(Err(e)) => out.push(Violation::new("T1", "schedule-dependence", "read_file.result", format!("file kind {kind}, directory style {style}: {e:#}"))),
                 Err(pm) => out.push(Violation::new("T1", "panic", format!("read_file:{}", panic_path(&pm)), pm)),
             }
+            // the file is replaced by another text of the same length with its modification time put back (cp -p,
+            // rsync -t, two writes within one clock tick), and read again under the same path: the answer is the one for
+            // the bytes that are there NOW, i.e. what the in-memory reader says about them (missed seeded change C03-14:
+            // a process-wide cache of file contents validated by length and mtime)
+            if kind % 3 == 0 {
+                if let Some(at) = t0.iter().enumerate().skip(t0.iter().position(|b| *b == b'\n').unwrap_or(0)).find(|(_, b)| b.is_ascii_lowercase()).map(|x| x.0) {
+                    let mut t0b = t0.clone();
+                    t0b[at] = if t0b[at] == b'z' { b'a' } else { t0b[at] + 1 };
+                    dir.overwrite_keep_mtime(&format!("{real}/m.tiny"), &t0b);
+                    st.probe("read_file_route.replaced_same_len_same_mtime");
+                    let want = no_panic(|| with_n!(n, read_real(&t0b[..])));
+                    let got = no_panic(|| with_n!(n, read_file_real(&path)));
+                    match (&want, &got) {
+                        (_, Err(pm)) => out.push(Violation::new("T1", "panic", format!("read_file:{}", panic_path(pm)), pm.clone())),
+                        (Ok(Ok(w)), Ok(Ok(g))) => {
+                            if let Some((path, d)) = w.diff_path(g) {
+                                out.push(Violation::new("T1", "residue-after-heal", format!("read_file.replaced.{path}"), format!("the file was replaced (same length, same mtime) and read again: {d}")));
+                            }
+                        }
+                        (Ok(Ok(_)), Ok(Err(e))) => out.push(Violation::new("T1", "residue-after-heal", "read_file.replaced.result", format!("the in-memory reader accepts the bytes now in the file, read_file says {e:#}"))),
+                        (Ok(Err(_)), Ok(Ok(_))) => out.push(Violation::new("T1", "residue-after-heal", "read_file.replaced.result", "the in-memory reader refuses the bytes now in the file, read_file returned Ok")),
+                        _ => {}
+                    }
+                }
+            }
         }
         // fixed point
         match no_panic(|| with_n!(n, rewrite_real(&t0))) {
